@@ -3,7 +3,6 @@
 package main
 
 import (
-	"os"
 	"bytes"
 	"crypto/tls"
 	"encoding/hex"
@@ -11,6 +10,7 @@ import (
 	"fmt"
 	"io"
 	"net"
+	"os"
 	"strings"
 	"sync"
 	"time"
